@@ -235,6 +235,74 @@ def sched_generated(ck, rng, tier):
         ck.note(comp, k, v)
 
 
+def execstack_oracle(nops, calls, end):
+    """The property on the real call log alone (no model): when the stack reports Finished, every operator but the source has
+    been finalized (answered Finalized/NeedsDrain to a finalize call) or has answered Exhausted, no operator is finalized twice,
+    and an operator is not executed after its successful finalize unless it is draining (answered NeedsDrain). Applies when the
+    operators respect the protocol: the operator acting as the start of the pipeline (operator 0, or an operator that answered
+    NeedsDrain) never answers NeedsMore."""
+    finalized, drained, exhausted = [], set(), set()
+    for kind, idx, ans in calls:
+        if kind == "e":
+            if ans == 2 and (idx == 0 or idx in drained):
+                return "skip"                   # protocol hypothesis does not hold for this script
+            if idx in finalized and idx not in drained:
+                return f"operator {idx} executed after it was finalized"
+            if ans == 4:
+                exhausted.add(idx)
+        else:
+            if ans in (0, 1):
+                if idx in finalized:
+                    return f"operator {idx} finalized twice"
+                finalized.append(idx)
+                if ans == 1:
+                    drained.add(idx)
+    if end == 1:
+        missing = [j for j in range(1, nops) if j not in finalized and j not in exhausted]
+        if missing:
+            return f"the pipeline finished but operator(s) {missing} were never finalized (partitions waiting on them in other pipelines wait forever)"
+    return "ok"
+
+
+def execstack_component(ck, tier):
+    comp = "execstack"
+    res = vlib.run_pair("execstack", [ck.seed, 4000 if tier == "quick" else 150000])
+    if res["rc"] != 0 or not res["cases"]:
+        ck.violation("execstack/harness", "gvh execstack failed: " + res["stderr"][-300:], {"correspondence": "gvh execstack", "stderr": res["stderr"]}, found_input=False)
+        return
+    diffs = 0
+    ends = {"0": 0, "1": 0, "2": 0}
+    oracle = {"ok": 0, "skip": 0, "bad": 0}
+    upstream_finalizes = 0
+    for k, line in res["cases"].items():
+        ck.count(comp, 1)
+        ck.nontrivial(line)
+        i, m = res["impl"].get(k), res["model"].get(k)
+        toks = (i or "").split()
+        end = int(toks[-1].split("=")[1]) if toks and toks[-1].startswith("end=") else -1
+        ends[str(end)] = ends.get(str(end), 0) + 1
+        calls = [(t[0], int(t[1:].split(":")[0]), int(t.split(":")[1])) for t in toks[:-1]]
+        nops = int(line.split()[3])
+        v = execstack_oracle(nops, calls, end)
+        # a finalize of an operator below an exhausted one (the repaired path) was exercised
+        ex = [c[1] for c in calls if c[0] == "e" and c[2] == 4]
+        if any(c[0] == "f" and any(c[1] < x for x in ex) for c in calls):
+            upstream_finalizes += 1
+        if v == "ok" or v == "skip":
+            oracle[v] += 1
+        else:
+            oracle["bad"] += 1
+            ck.violation("execstack/finished-without-finalize", f"ExecutionStack::pop_next: {v} ({line[:160]})", {"kind": "impl-vs-oracle", "case": line, "impl": i, "replay_cmd": f"{vlib.GVH} execstack {ck.seed} (case {k})"})
+        if i != m:
+            diffs += 1
+            if diffs <= 3:
+                ck.violation("execstack/model-diff", f"Core/ExecStack.lean and ExecutionStack::pop_next disagree: {line[:160]} impl={i} model={m}", {"correspondence": "ExecStack.step vs ExecutionStack::pop_next", "case": line, "impl": i, "model": m}, found_input=False)
+    ck.note(comp, "model_diffs", diffs)
+    ck.note(comp, "ends(script-used-up/finished/error)", ends)
+    ck.note(comp, "oracle", oracle)
+    ck.note(comp, "cases_with_upstream_finalize", upstream_finalizes)
+
+
 def cancel_component(ck, rng, tier):
     comp = "cancel"
     proc = Proc("cancel")
@@ -376,6 +444,7 @@ def main():
         t0 = time.time()
         error_component(ck, runner, tier)
         if not vlib.HARNESS_DEGRADED:
+            execstack_component(ck, tier)
             tasktrace_component(ck, rng, tier)
         cancel_component(ck, rng, tier)
         ck.note("cancel", "wall_s", round(time.time() - t0, 1))
